@@ -71,6 +71,9 @@ pub struct Server {
     /// content at every serial of this session ever published
     pub at_serial: BTreeMap<u64, BTreeMap<String, Vec<u8>>>,
     pub session_counter: u32,
+    /// bumped whenever content changes without a new serial (a server
+    /// rewriting what it published): part of the notification's validators
+    pub generation: u64,
 }
 
 pub const XMLNS: &str = "http://www.ripe.net/rpki/rrdp";
@@ -85,6 +88,7 @@ impl Server {
             deltas: BTreeMap::new(),
             at_serial: BTreeMap::new(),
             session_counter: 0,
+            generation: 0,
         };
         res.new_session();
         res
@@ -212,7 +216,7 @@ impl Server {
     }
 
     pub fn etag(&self) -> String {
-        format!("\"{}-{}\"", &self.session[self.session.len() - 8..], self.serial)
+        format!("\"{}-{}-{}\"", &self.session[self.session.len() - 8..], self.serial, self.generation)
     }
 
     /// The faithful answer to a request (None: not one of our URIs).
